@@ -415,7 +415,7 @@ class RefModule:
             raise Reject("unknown state")
         targets = rv.N if state in cs else rv.E
         if state == "i":
-            raise Unspec("recording 'i'")
+            raise Reject("recording 'i' (the stimulus key is not a state: must be refused, F30)")
         if state not in cs:
             owner = self.syn_of_state(state)
             if any(self.edges[e]["type"] != owner for e in targets):
